@@ -170,6 +170,12 @@ def scenarios(ctx):
                        connects=[(clean, 0, ver)], reconnects=[(False, 0, ver), (True, 0, ver)],
                        inpubs=INPUBS, inrels=((1,), (2,), (3,), (1, True)), closing=False,
                        budgets=dict(inpub=4 if q else 5, inrel=3 if q else 4, raw=1, lose=2, rebuild=2, connect=2, connack=2, badconnect=1)))
+    # the application uses the API from inside onPublish (answers with a publish, or leaves)
+    for act in ('pub1', 'disconnect'):
+        out.append(Scn('pubsub-reenter-onpublish-%s' % act, profile='pubsub', init=(('connect', 0, False, 0, 4), ('connack', 0, 0, False)),
+                       connects=[(False, 0, 4)], reconnects=[(False, 0, 4)], reenter=('onPublish>%s' % act,),
+                       inpubs=INPUBS, inrels=((1,), (2,), (1, True)), closing=False,
+                       budgets=dict(inpub=3, inrel=3, lose=1, rebuild=1, connect=1, connack=1, disconnect=0, pub=0)))
     return out
 
 
